@@ -83,6 +83,18 @@ Theorem C07_adjacent_ranges_concat : forall lz4c lz4d choose,
   let rd := get_bytes_by_chunk_range lz4d (built_info lz4c choose cashash chunks hashes scheme) (xorb_serialize lz4c choose cashash chunks hashes scheme) in
   exists x y, rd a b = ROk x /\ rd b c = ROk y /\ rd a c = ROk (x ++ y).
 Proof. exact xorb_adjacent_ranges_concat. Qed.
+(* the error branch of the range reads: an empty, inverted or out-of-range chunk range is refused (InvalidArguments) whatever the
+   bytes are -- never a panic, never bytes *)
+Theorem C07_bad_range_refused : forall lz4c lz4d choose cashash chunks hashes scheme bs a b,
+  xorb_input_ok cashash chunks hashes -> bytes_eqb cashash zero_hash = false -> chunks <> [] ->
+  b <= a \/ N.of_nat (length chunks) < b ->
+  get_bytes_by_chunk_range lz4d (built_info lz4c choose cashash chunks hashes scheme) bs a b = RErr.
+Proof. exact xorb_bad_range_refused. Qed.
+Theorem C07_bad_range_length_refused : forall lz4c choose cashash chunks hashes scheme a b,
+  xorb_input_ok cashash chunks hashes -> bytes_eqb cashash zero_hash = false -> chunks <> [] ->
+  b < a \/ N.of_nat (length chunks) < b \/ N.of_nat (length chunks) <= a ->
+  uncompressed_range_length (built_info lz4c choose cashash chunks hashes scheme) a b = RErr.
+Proof. exact xorb_bad_range_length_refused. Qed.
 Example C07_range_nonvacuous :
   let lz4c := fun x : list N => x in let lz4d := fun x : list N => Some x in let choose := fun _ : list N => 2 in
   get_bytes_by_chunk_range lz4d (built_info lz4c choose (repeat 5 32%nat) [[1; 2; 3]; [9]; [7; 7]] [repeat 1 32%nat; repeat 2 32%nat; repeat 3 32%nat] None)
@@ -106,3 +118,5 @@ Print Assumptions C07_xorb_get_all_bytes.
 Print Assumptions C07_xorb_get_chunk_range.
 Print Assumptions C07_xorb_range_length.
 Print Assumptions C07_adjacent_ranges_concat.
+Print Assumptions C07_bad_range_refused.
+Print Assumptions C07_bad_range_length_refused.
